@@ -45,6 +45,10 @@ def load_fonts():
         _FONTS["tiny:" + pname] = tinyfont.build_bytes(spec)
     _FONTS["tiny:vmtx-kern-post3"] = tinyfont.build_bytes({"kind": "ttf", "shapes": "mixed", "vmtx": True, "post3": False, "composite": True,
                                                            "kern": [["a", "b", -30], ["c", "a", 25]], "fea": tinyfont.FEA_BASIC, "glyphs": ["a", "b", "c", "d", "e", "f"]})
+    # a variable font with vertical metrics: varLib builds a VVAR (no advance-height map: the
+    # delta sets are indexed by glyph ID)
+    _FONTS["tiny:vf-vmtx-1axis"] = tinyfont.build_bytes({"kind": "ttf", "shapes": "mixed", "glyphs": ["a", "b", "c", "d", "e"], "vmtx": True, "fea": tinyfont.FEA_VAR,
+                                                         "axes": [["wght", 100, 400, 900]], "masters": [{"wght": 400}, {"wght": 100}, {"wght": 900}]})
     for name, data, idx in corpus.binary_faces():
         try:
             f = TTFont(io.BytesIO(data), fontNumber=idx, lazy=True)
@@ -64,6 +68,49 @@ def load_fonts():
         if "master_cff2_input/TestCFF2_" in name or "sbix" in name:
             continue
         _FONTS["ttx:" + name] = data
+    derive_fonts()
+
+
+def derive_fonts():
+    """variants of corpus fonts that put a rarely used representation in place: HVAR / VVAR
+    without an advance mapping (delta sets indexed by glyph ID)"""
+    nh = 0
+    for key in sorted((k for k in _FONTS if not k.startswith("derived:")), key=lambda k: (len(_FONTS[k]), k)):
+        f = TTFont(io.BytesIO(_FONTS[key]), lazy=True)
+        for tag, attr in (("HVAR", "AdvWidthMap"), ("VVAR", "AdvHeightMap")):
+            if tag not in f or len(_FONTS[key]) > 30000 or (tag == "HVAR" and nh >= 4):
+                continue
+            g = TTFont(io.BytesIO(_FONTS[key]))
+            t = g[tag].table
+            m = getattr(t, attr, None)
+            if m is None:
+                continue
+            # make the mapping implicit: one VarData whose item i belongs to glyph i
+            from fontTools.varLib import varStore
+            from fontTools.varLib.builder import buildVarData
+
+            order = g.getGlyphOrder()
+            store = t.VarStore
+            nreg = len(store.VarRegionList.Region)
+            rows = []
+            for gn in order:
+                vi = m.mapping[gn]
+                vd = store.VarData[vi >> 16]
+                row = [0] * nreg
+                if (vi & 0xFFFF) < len(vd.Item):
+                    for ri, d in zip(vd.VarRegionIndex, vd.Item[vi & 0xFFFF]):
+                        row[ri] = d
+                rows.append(row)
+            store.VarData = [buildVarData(list(range(nreg)), rows, optimize=False)]
+            store.VarDataCount = 1
+            setattr(t, attr, None)
+            nh += tag == "HVAR"
+            for other in ("LsbMap", "RsbMap", "TsbMap", "BsbMap", "VOrgMap"):
+                if getattr(t, other, None) is not None:
+                    setattr(t, other, None)
+            b = io.BytesIO()
+            g.save(b)
+            _FONTS["derived:%s-implicit-%s" % (key.split("/")[-1], attr)] = b.getvalue()
 
 
 def var_locations(font):
@@ -104,6 +151,8 @@ def snapshot(data, strlen, order=None):
         for gid, gn in enumerate(order):
             raw = hbf.raw_outline(gid)
             snap["glyphs"][(li, gn)] = (geom.canon_contours(raw), hbf.h_advance(gid), raw)
+            if "vmtx" in font:
+                snap.setdefault("vadv", {})[(li, gn)] = hbf.v_advance(gid)
     hbf.set_location({})
     alpha = alphabet(font)
     if "GSUB" in font or "GPOS" in font or "kern" in font:
@@ -171,6 +220,8 @@ def snapshot(data, strlen, order=None):
         font2 = TTFont(io.BytesIO(data))
         if "HVAR" in font:
             snap["nvar"] = max(snap["nvar"], len(font2["HVAR"].table.VarStore.VarRegionList.Region))
+        if "VVAR" in font:
+            snap["nvvar"] = len(font2["VVAR"].table.VarStore.VarRegionList.Region)
         if "CFF2" in font:
             vs = getattr(font2["CFF2"].cff.topDictIndex[0], "VarStore", None)
             if vs is not None:
@@ -252,6 +303,15 @@ def compare(a, b, factor, rec, what, key):
         atol = (0.5 + 0.5 * (a.get("nvar", 1) if li else 0)) + 1e-6 if scaled else (1 if li else 0)
         if abs(adva * factor - advb) > atol:
             rec.violation(what + ":advance", "%s glyph %r (location #%d): advance %s -> %s (factor %s)" % (key, gn, li, adva, advb, factor))
+        if "vadv" in a and "vadv" in b:
+            va, vb = a["vadv"][(li, gn)], b["vadv"][(li, gn)]
+            vtol = atol
+            if scaled and "VVAR" in a["tables"] and li:
+                vtol = 0.5 + 0.5 * a.get("nvvar", a.get("nvar", 1)) + 1e-6
+            if abs(va * factor - vb) > vtol:
+                rec.violation(what + ":vertical-advance", "%s glyph %r (location #%d): vertical advance %s -> %s (factor %s)" % (key, gn, li, va, vb, factor))
+            elif li and va != a["vadv"][(0, gn)]:
+                rec.witness("vertical advance varies (VVAR)")
     if set(a["shape"]) != set(b["shape"]):
         rec.violation(what + ":shape-domain", "%s: shaped string set changed" % key)
         return
@@ -388,9 +448,9 @@ def base_snapshot(key, strlen):
 class Reorder(Unit):
     name = "reorder-glyphs"
     rule = ("reorderGlyphs(font, order): EVERY permutation of the non-.notdef glyphs for fonts with <=5 (thorough 6) of them (generated pool: glyf, CFF, CFF2, kern, vmtx, GSUB single/ligature/context, GPOS pair/class/mark/mkmk, GDEF, gvar/HVAR/MVAR); for larger corpus fonts the generators rotation by 1 and n/2, reversal, adjacent transpositions and (1 k) swaps (all in thorough, 10 rotating with the seed in quick); "
-            "font saved and reloaded; oracle: by glyph name, HarfBuzz outline+advance at {default, each axis min/max, all-max}, nominal glyph per code point, shaping of all strings of length <=2 (thorough 3) over 6 characters identical; distinct = (font, permutation)")
+            "the first two permutations of every font also on a lazily loaded font; fonts include variants with HVAR/VVAR delta sets indexed by glyph ID (no advance map); font saved and reloaded; oracle: by glyph name, HarfBuzz outline + horizontal and vertical advance at {default, each axis min/max, all-max}, nominal glyph per code point, shaping of all strings of length <=2 (thorough 3) over 6 characters identical; distinct = (font, permutation)")
     chunk = 8
-    required_witnesses = ("GSUB font", "GPOS font", "CFF font", "gvar font", "kern table", "full permutation group")
+    required_witnesses = ("GSUB font", "GPOS font", "CFF font", "gvar font", "kern table", "full permutation group", "lazily loaded font", "vertical advance varies (VVAR)")
 
     def setup(self, tier, seed):
         load_fonts()
@@ -403,14 +463,21 @@ class Reorder(Unit):
             order = TTFont(io.BytesIO(_FONTS[key]), lazy=True).getGlyphOrder()
             if len(order) < 3:
                 continue
-            for p in perms_for(order, tier, seed):
-                yield [key, p]
+            for i, p in enumerate(perms_for(order, tier, seed)):
+                yield [key, p, None]
+                if i < 2:
+                    # the same permutation on a lazily loaded font (tables and OpenType sub-tables
+                    # decoded on demand)
+                    yield [key, p, True]
 
     def check(self, case, rec):
-        key, p = case
+        key, p = case[:2]
+        lazy = case[2] if len(case) > 2 else None
         strlen = 2
         before = base_snapshot(key, strlen)
-        font = TTFont(io.BytesIO(_FONTS[key]))
+        font = TTFont(io.BytesIO(_FONTS[key]), lazy=lazy)
+        if lazy:
+            rec.witness("lazily loaded font")
         order = font.getGlyphOrder()
         if len(set(order)) != len(order):
             return
@@ -441,10 +508,10 @@ class Reorder(Unit):
 
 class Scale(Unit):
     name = "scale-upem"
-    rule = ("scale_upem(font, new) for new in {16, 500, 1000, 1024, 2000, 2048, 2500, 16384} (integer and non-integer ratios, up and down) on every corpus/generated font with glyf/CFF/CFF2 outlines (AOTS family: a rotating sixth in quick); font saved and reloaded; "
+    rule = ("scale_upem(font, new) for new in {16, 500, 1000, 1024, 2000, 2048, 2500, 16384} (integer and non-integer ratios, up and down) on every corpus/generated font with glyf/CFF/CFF2 outlines (AOTS family: a rotating sixth in quick), the smallest and largest value also on a lazily loaded font; font saved and reloaded; "
             "oracle: unitsPerEm is the new value; by glyph name every HarfBuzz outline coordinate, advance and shaping advance/offset equals old*factor within the rounding budget; table set, cmap, glyph names and shaped glyph sequences unchanged; distinct = (font, upem)")
     chunk = 4
-    required_witnesses = ("GPOS font", "CFF font", "gvar font", "kern table", "non-integer ratio", "downscale")
+    required_witnesses = ("GPOS font", "CFF font", "gvar font", "kern table", "non-integer ratio", "downscale", "lazily loaded font")
 
     def setup(self, tier, seed):
         load_fonts()
@@ -457,16 +524,21 @@ class Scale(Unit):
             ups = UPEMS
             if tier == "quick" and not key.startswith("tiny:"):
                 ups = [UPEMS[(h64(key) + seed + i * 3) % len(UPEMS)] for i in range(3)]
-            for u in sorted(set(ups)):
-                yield [key, u]
+            for i, u in enumerate(sorted(set(ups))):
+                yield [key, u, None]
+                if i in (0, len(set(ups)) - 1):
+                    yield [key, u, True]
 
     def check(self, case, rec):
-        key, new = case
+        key, new = case[:2]
+        lazy = case[2] if len(case) > 2 else None
         before = base_snapshot(key, 2)
         old = before["upem"]
         if new == old:
             return
-        font = TTFont(io.BytesIO(_FONTS[key]))
+        font = TTFont(io.BytesIO(_FONTS[key]), lazy=lazy)
+        if lazy:
+            rec.witness("lazily loaded font")
         try:
             scale_upem(font, new)
             buf = io.BytesIO()
